@@ -397,8 +397,10 @@ func (g *gate) SendRequest(ctx context.Context, addr string, req *tikvrpc.Reques
 		dbg := w.rpc.MvccStore.(mocktikv.MVCCDebugger)
 		keys := make([]string, 0, len(locks))
 		for _, l := range locks {
-			if info := dbg.MvccGetByKey(l.Key); info != nil && info.Lock != nil && info.Lock.StartTs == l.LockVersion {
-				l.LockType = info.Lock.Type
+			if n1tActive {
+				if info := dbg.MvccGetByKey(l.Key); info != nil && info.Lock != nil && info.Lock.StartTs == l.LockVersion {
+					l.LockType = info.Lock.Type
+				}
 			}
 			keys = append(keys, hx(l.Key))
 		}
@@ -539,6 +541,11 @@ const rpcBudget = 4000
 var (
 	mockHonoursTxnInfos bool
 	n2Active            bool
+	// N1T (env VERIF_C14_N1T = off (default) | auto | on): fill ScanLock's lock_type from the MVCC debugger. Until fix F41
+	// mocktikv's ScanLock returned no lock_type, so BatchResolveLocks could not recognise pessimistic locks; filling it in
+	// the harness masked that (a stale-primary pessimistic lock then rolls back a committed transaction's secondary).
+	n1tActive         bool
+	mockScanLockTyped bool
 )
 
 func newWorld(c *Case) (*world, error) {
@@ -735,12 +742,19 @@ func runCase(c *Case) *Result {
 			res.NewSP, err = w.store.GC(ctx, c.SP, tikv.WithConcurrency(c.Conc))
 		default:
 			resolver := tikv.NewRegionLockResolver("verif-gc", w.store)
-			handler := func(ctx context.Context, r kv.KeyRange) (rangetask.TaskStat, error) {
+			handler := func(ctx context.Context, r kv.KeyRange) (st rangetask.TaskStat, err error) {
 				subsMu.Lock()
 				res.Subs = append(res.Subs, [2]string{hx(r.StartKey), hx(r.EndKey)})
 				subsMu.Unlock()
 				w.logEv(Event{T: "begin", S: hx(r.StartKey), E: hx(r.EndKey)})
-				st, err := tikv.ResolveLocksForRange(ctx, resolver, c.SP, r.StartKey, r.EndKey, tikv.NewGcResolveLockMaxBackoffer, c.Limit)
+				// the client's own consistency panics (e.g. saveResolved: "status not equal to the cached one") must surface as a
+				// failed pass with the population as failing input, not kill the driver
+				defer func() {
+					if p := recover(); p != nil {
+						err = fmt.Errorf("panic in ResolveLocksForRange: %v", p)
+					}
+				}()
+				st, err = tikv.ResolveLocksForRange(ctx, resolver, c.SP, r.StartKey, r.EndKey, tikv.NewGcResolveLockMaxBackoffer, c.Limit)
 				w.logEv(Event{T: "end", S: hx(r.StartKey), E: hx(r.EndKey)})
 				return st, err
 			}
@@ -1008,6 +1022,17 @@ func probeMock() map[string]interface{} {
 	sresp, err := w.store.SendReq(bo, sreq, loc.Region, time.Second)
 	must(err)
 	scanHonours := len(sresp.Resp.(*kvrpcpb.ScanLockResponse).Locks) == 0
+	// does ScanLock report the lock type? (a pessimistic lock on "q")
+	must(w.runScript([]Op{{Op: "pesslock", Key: hx([]byte("q")), Primary: hx([]byte("q")), Start: 6}}))
+	treq := tikvrpc.NewRequest(tikvrpc.CmdScanLock, &kvrpcpb.ScanLockRequest{MaxVersion: 100})
+	tresp, err := w.store.SendReq(bo, treq, loc.Region, time.Second)
+	must(err)
+	for _, l := range tresp.Resp.(*kvrpcpb.ScanLockResponse).Locks {
+		if string(l.Key) == "q" && l.LockType == kvrpcpb.Op_PessimisticLock {
+			mockScanLockTyped = true
+		}
+	}
+	_ = w.rpc.MvccStore.PessimisticRollback(nil, nil, [][]byte{[]byte("q")}, 6, 6)
 	req := tikvrpc.NewRequest(tikvrpc.CmdResolveLock, &kvrpcpb.ResolveLockRequest{TxnInfos: []*kvrpcpb.TxnInfo{{Txn: 5, Status: 7}}})
 	resp, err := w.store.SendReq(bo, req, loc.Region, time.Second)
 	must(err)
@@ -1028,6 +1053,18 @@ func probeMock() map[string]interface{} {
 		out["n2_mode"] = "off"
 	}
 	out["n2_active"] = n2Active
+	out["scan_lock_returns_lock_type"] = mockScanLockTyped
+	switch os.Getenv("VERIF_C14_N1T") {
+	case "on":
+		n1tActive = true
+		out["n1t_mode"] = "on"
+	case "auto":
+		n1tActive = !mockScanLockTyped
+		out["n1t_mode"] = "auto"
+	default:
+		out["n1t_mode"] = "off"
+	}
+	out["n1t_active"] = n1tActive
 	out["raw_probe_script"] = "prewrite p,s (primary p, start 5, put v); commit p@7; [ResolveLock{TxnInfos:[5->7]} on s's region]; prewrite s2 (primary p, start 5); GCResolveLockPhase(safe point 100, 1 worker)"
 	// end to end on the raw mock: GC leaves the committed transaction's secondary locked
 	must(w.runScript([]Op{{Op: "prewrite", Key: hx([]byte("s2")), Primary: hx([]byte("p")), Start: 5, Kind: "put", Val: hx([]byte("v"))}}))
@@ -1152,7 +1189,14 @@ func (g *gen) population(c *Case, keys []string, ntxn int) {
 			return "put"
 		}
 		commit := start + uint64(1+g.r.Intn(9))
-		state := []string{"committed", "committed", "rolledback", "pending", "pending-noprimary", "pess-pending", "pess-mixed", "pess-committed", "done"}[g.r.Intn(9)]
+		states := []string{"committed", "committed", "rolledback", "pending", "pending-noprimary", "pess-pending", "pess-mixed", "pess-committed", "done", "stale-pess", "stale-pess"}
+		if c.Class == "stalepess" {
+			states = []string{"stale-pess", "stale-pess", "stale-pess", "committed", "pending", "pess-pending"}
+		}
+		if c.Mode != "custom" { // the internal handlers of GCResolveLockPhase / GC cannot be guarded against the client's panics
+			states = states[:9]
+		}
+		state := states[g.r.Intn(len(states))]
 		switch state {
 		case "done": // fully committed history, no leftovers
 			for _, k := range tk {
@@ -1198,6 +1242,65 @@ func (g *gen) population(c *Case, keys []string, ntxn int) {
 				}
 				c.Script = append(c.Script, Op{Op: "prewrite", Key: h(k), Primary: h(primary), Start: start, Kind: kind(), Val: val(k)})
 				free[k] = false
+			}
+		case "stale-pess":
+			// tidb#42937: leftover pessimistic locks of T whose primary FIELD is stale (an unlocked key, a key locked by another
+			// transaction, a key that does not exist -- in this or another region; never a key holding a prewrite lock of T itself),
+			// next to prewrite locks of T under its real primary; T committed (primary committed, secondaries left), pending or rolled back
+			if len(tk) < 2 {
+				cand2 := []string{}
+				for _, k := range keys {
+					if free[k] && lastCommit[k] < start && k != tk[0] {
+						cand2 = append(cand2, k)
+					}
+				}
+				if len(cand2) == 0 {
+					starts = starts[:len(starts)-1]
+					continue
+				}
+				tk = append(tk, cand2[g.r.Intn(len(cand2))])
+			}
+			npw := 1 + g.r.Intn(len(tk)-1) // tk[:npw] prewritten (tk[0] = real primary), tk[npw:] pessimistic leftovers
+			inT := map[string]bool{}
+			for _, k := range tk {
+				inT[k] = true
+			}
+			stale := func() string {
+				switch g.r.Intn(3) {
+				case 0: // a key that exists (maybe locked by another transaction, maybe lock-free), possibly in another region
+					for try := 0; try < 8; try++ {
+						if k := keys[g.r.Intn(len(keys))]; !inT[k] {
+							return k
+						}
+					}
+				case 1:
+					return string(g.key()) + "y" // no such key
+				}
+				return string(g.key()) + "0z"
+			}
+			for _, k := range tk[:npw] {
+				c.Script = append(c.Script, Op{Op: "prewrite", Key: h(k), Primary: h(primary), Start: start, Kind: kind(), Val: val(k)})
+				free[k] = false
+			}
+			for _, k := range tk[npw:] {
+				p := stale()
+				if g.r.Intn(4) == 0 {
+					p = primary // some leftovers still name the real primary
+				}
+				c.Script = append(c.Script, Op{Op: "pesslock", Key: h(k), Primary: h(p), Start: start})
+				free[k] = false
+			}
+			switch g.r.Intn(3) {
+			case 0, 1: // the writer died right after the primary commit
+				c.Script = append(c.Script, Op{Op: "commit", Key: h(primary), Start: start, Commit: commit})
+				lastCommit[primary] = commit
+				free[primary] = true
+				ts = commit
+			case 2:
+				if g.r.Intn(2) == 0 {
+					c.Script = append(c.Script, Op{Op: "rollback", Key: h(primary), Start: start})
+					free[primary] = true
+				}
 			}
 		case "pess-pending":
 			for j, k := range tk {
@@ -1331,6 +1434,15 @@ func (g *gen) gcCase(class string) *Case {
 		c.Splits = g.splits(g.r.Intn(4), keys)
 		c.Limit = uint32(1 + g.r.Intn(4))
 		g.commitSecPopulation(c, keys)
+	case "stalepess": // stale-primary pessimistic leftovers next to prewrite locks of the same transaction
+		keys = g.keys(6 + g.r.Intn(10))
+		ntxn = 3 + g.r.Intn(6)
+		c.Splits = g.splits(g.r.Intn(4), keys)
+		c.Limit = uint32(1 + g.r.Intn(5))
+		if g.r.Intn(4) == 0 {
+			c.Conc = 2 + g.r.Intn(4)
+			c.RPT = 1
+		}
 	case "midsplit": // a split lands inside the scanned batch between ScanLock and ResolveLock
 		keys = g.keys(8 + g.r.Intn(10))
 		ntxn = 6 + g.r.Intn(8)
@@ -1583,6 +1695,7 @@ func main() {
 		{func() *Case { return g.gcCase("split") }, 50},
 		{func() *Case { return g.gcCase("midsplit") }, 40},
 		{func() *Case { return g.gcCase("commitsec") }, 25},
+		{func() *Case { return g.gcCase("stalepess") }, 45},
 		{func() *Case { return g.gcCase("conc") }, 30},
 		{func() *Case { return g.gcCase("phase") }, 15},
 		{func() *Case { return g.gcCase("full") }, 25},
